@@ -716,6 +716,7 @@ public:
 	/// </summary>
 	/// <typeparam name="bt"></typeparam>
 	cfloat& operator++() {
+		if (iszero()) setzero(); // every encoding of zero (-0, and the exponent-0 patterns without subnormals) steps like +0
 		if constexpr (0 == nrBlocks) {
 			return *this;
 		}
@@ -821,6 +822,7 @@ public:
 		return tmp;
 	}
 	cfloat& operator--() {
+		if (iszero()) setzero(); // every encoding of zero (-0, and the exponent-0 patterns without subnormals) steps like +0
 		if constexpr (0 == nrBlocks) {
 			return *this;
 		}
